@@ -303,16 +303,24 @@ def _c15_source(tr, gate):
             put = srcprops.dec_put(st.op[1:])
             started = False
             received_fin = None
-        if st.tag == 0 and st.pdu["kind"] == codec.K_FIN and st.ob["exc"] == 0 and st.prev is not None and \
-                st.prev["fields"]["state"] == 1 and \
-                (st.ob["fields"]["step"] in (9, 10) or (st.ob["fields"]["state"] == 0 and any(e[0] == 3 for e in evs))):
-            received_fin = (st.pdu["cond"], st.pdu["deliv"], st.pdu["fstatus"])
+        expects_fin = False
+        if put is not None:
+            rem = next((r for r in tr.cfg["remotes"] if r["id"] == put["dst"]), None)
+            if rem is not None:
+                m_ = put["mode"] if put["mode"] is not None else rem["mode"]
+                c_ = put["closure"] if put["closure"] is not None else bool(rem["closure"])
+                expects_fin = m_ == 0 or c_
+        if st.tag == 0 and st.pdu["kind"] == codec.K_FIN and st.ob["exc"] == 0:
+            received_fin = (received_fin or set()) | {(st.pdu["cond"], st.pdu["deliv"], st.pdu["fstatus"])}
         for e in evs:
             if e[0] == 3:
-                want = received_fin if received_fin is not None else (0, 0, 3)
-                if tuple(e[3:6]) != want:
-                    raise Failure(f"C15 sender's Transaction-Finished reports {tuple(e[3:6])}; the Finished PDU received for this "
-                                  f"transaction carried {received_fin} (none received: own success notice (0, 0, 3)) (op {st.i})")
+                allowed = set(received_fin or ())
+                if not expects_fin or not allowed:
+                    allowed.add((0, 0, 3))
+                if tuple(e[3:6]) not in allowed:
+                    raise Failure(f"C15 sender's Transaction-Finished reports {tuple(e[3:6])}; the Finished PDU(s) handed in for this "
+                                  f"transaction carried {sorted(received_fin or [])} (own success notice (0, 0, 3) when none is "
+                                  f"expected) (op {st.i})")
         got = _drained_after(tr, k) if st.tag in (0, 1, 3) and (st.prev is None or st.prev["fields"]["qlen"] == 0) else []
         for e in evs:
             if e[0] == 1:
